@@ -189,6 +189,31 @@ func vLabelsMatch(sel *metav1.LabelSelector, l map[string]string) bool {
 			return false
 		}
 	}
+	for _, e := range sel.MatchExpressions {
+		got, has := l[e.Key]
+		in := false
+		for _, v := range e.Values {
+			in = in || has && got == v
+		}
+		switch e.Operator {
+		case metav1.LabelSelectorOpIn:
+			if !in {
+				return false
+			}
+		case metav1.LabelSelectorOpNotIn:
+			if in {
+				return false
+			}
+		case metav1.LabelSelectorOpExists:
+			if !has {
+				return false
+			}
+		case metav1.LabelSelectorOpDoesNotExist:
+			if has {
+				return false
+			}
+		}
+	}
 	return true
 }
 
@@ -388,12 +413,14 @@ func vSemPeer(k int) networkv1.NetworkPolicyPeer {
 			NamespaceSelector: &metav1.LabelSelector{MatchLabels: map[string]string{"team": "b"}}}
 	case 5: // pods labelled app=web of the policy's namespace (web2 of ns2 carries the label too)
 		return networkv1.NetworkPolicyPeer{PodSelector: &metav1.LabelSelector{MatchLabels: map[string]string{"app": "web"}}}
+	case 6: // set-based pod selector: app notin (db), in the policy's namespace
+		return networkv1.NetworkPolicyPeer{PodSelector: &metav1.LabelSelector{MatchExpressions: []metav1.LabelSelectorRequirement{{Key: "app", Operator: metav1.LabelSelectorOpNotIn, Values: []string{"db"}}}}}
 	}
 	// an ip block without exception, outside the pod network
 	return networkv1.NetworkPolicyPeer{IPBlock: &networkv1.IPBlock{CIDR: "192.168.0.0/16"}}
 }
 
-const vNumSemPeers = 7
+const vNumSemPeers = 8
 
 func vSemPeers(max int) []networkv1.NetworkPolicyPeer {
 	var out []networkv1.NetworkPolicyPeer
@@ -405,11 +432,13 @@ func vSemPeers(max int) []networkv1.NetworkPolicyPeer {
 
 func vSemPolicy(name string, maxPeers, maxIngress int) *networkv1.NetworkPolicy {
 	np := &networkv1.NetworkPolicy{ObjectMeta: metav1.ObjectMeta{Namespace: "ns1", Name: name}}
-	switch nondetChoice(3) {
+	switch nondetChoice(4) {
 	case 1:
 		np.Spec.PodSelector = metav1.LabelSelector{MatchLabels: map[string]string{"app": "web"}}
 	case 2:
 		np.Spec.PodSelector = metav1.LabelSelector{MatchLabels: map[string]string{"app": "db"}}
+	case 3: // set-based: app in (db, cache), which selects db only
+		np.Spec.PodSelector = metav1.LabelSelector{MatchExpressions: []metav1.LabelSelectorRequirement{{Key: "app", Operator: metav1.LabelSelectorOpIn, Values: []string{"db", "cache"}}}}
 	}
 	switch nondetChoice(4) {
 	case 1:
@@ -475,7 +504,7 @@ func vSemWorld() *vWorld {
 	return w
 }
 
-// BOUND: cluster: namespaces ns1 team=a, ns2 team=b; pods web 10.0.0.1 and db 10.0.0.2 on the node, api 10.0.0.4 (ns1, app=web) and web2 10.0.0.3 (ns2, app=web) on another node; one policy in ns1: podSelector over {all, app=web, app=db}, policyTypes over {unset, [Ingress], [Egress], both}, 0..1 ingress rule and 0..1 egress rule, each with ports over {none, tcp 80, udp 53 + tcp 80} and 0..1 peers (thorough: 0..2) out of 7 peer forms (pod selector, namespace selector, both, all pods, ip block with and without exception); flow: any IPv4 source and destination, tcp or udp, any destination port; forwarded traffic (FORWARD chain), first packet of a connection
+// BOUND: cluster: namespaces ns1 team=a, ns2 team=b; pods web 10.0.0.1 and db 10.0.0.2 on the node, api 10.0.0.4 (ns1, app=web) and web2 10.0.0.3 (ns2, app=web) on another node; one policy in ns1: podSelector over {all, app=web, app=db, app in (db, cache)}, policyTypes over {unset, [Ingress], [Egress], both}, 0..1 ingress rule and 0..1 egress rule, each with ports over {none, tcp 80, udp 53 + tcp 80} and 0..1 peers (thorough: 0..2) out of 8 peer forms (pod selector by labels and set-based, namespace selector, both, all pods, ip block with and without exception); flow: any IPv4 source and destination, tcp or udp, any destination port; forwarded traffic (FORWARD chain), first packet of a connection
 // ASSUME: packet walk models iptables filter traversal of FORWARD with policy ACCEPT, -s/-d/-p, set match (hash:ip, hash:net with nomatch), multiport --dports, conntrack RELATED,ESTABLISHED never matching a new connection; traffic between a pod and the node's own processes (INPUT / OUTPUT) is outside the walk
 func VerifC16_q_onePolicy() {
 	w := vSemWorld()
